@@ -13,7 +13,7 @@ import z3
 
 from .values import (Unsupported, EngineError, is_z3, is_boolish, is_intish, is_realish,
                      is_numish, concretize, simp, Z, ZB, ZR, EnumV, Opt, SymList, EmptyList,
-                     SymSet, Obj, ActionV, ClassRef, TypeV, FuncV, RangeV, IndexV, DictV, ObjList, RowRef, PartialV, ListLit, SymMap2, NdArray3, INF, Inf,
+                     SymSet, Obj, ActionV, ClassRef, TypeV, FuncV, RangeV, IndexV, Grid2, GridRow, DictV, ObjList, RowRef, PartialV, ListLit, SymMap2, NdArray3, INF, Inf,
                      STORAGE_CODES,
                      STEPTYPE)
 from .source import AnchorError
@@ -301,12 +301,23 @@ class Engine:
             srt = z3.ArraySort(z3.IntSort(), z3.ArraySort(z3.IntSort(), z3.IntSort()))
             d0, d1 = z3.Int(n + ".d0"), z3.Int(n + ".d1")
             return NdArray3([z3.Const("%s.c%d" % (n, i), srt) for i in range(3)], d0, d1), [d0 >= 0, d1 >= 0]
+        if ty == "grid":
+            return self.fresh_grid(n)
         if ty == "map2":
             return SymMap2(z3.Array(n + ".present", z3.IntSort(), z3.IntSort(), z3.BoolSort()),
                            z3.Array(n + ".val", z3.IntSort(), z3.IntSort(), z3.IntSort())), []
         if ty == "dict":
             raise Unsupported("fresh dict without declared keys")
         raise EngineError("unknown type %r" % (ty,))
+
+    def fresh_grid(self, n, d0=None, d1=None):
+        s2b = z3.ArraySort(z3.IntSort(), z3.ArraySort(z3.IntSort(), z3.BoolSort()))
+        s2r = z3.ArraySort(z3.IntSort(), z3.ArraySort(z3.IntSort(), z3.RealSort()))
+        cons = []
+        if d0 is None:
+            d0, d1 = z3.Int(n + ".d0"), z3.Int(n + ".d1")
+            cons = [d0 >= 0, d1 >= 0]
+        return Grid2(z3.Const(n + ".inf", s2b), z3.Const(n + ".val", s2r), d0, d1), cons
 
     def sort_of(self, ty):
         if ty in ("int", "nat", "storage", "steptype", "str"):
@@ -341,6 +352,9 @@ class Engine:
             return x, cs
         if isinstance(v, IndexV):
             return self.fresh("opindex", hint)
+        if isinstance(v, Grid2):
+            # the shape of a table never changes after its creation
+            return self.fresh_grid("%s!%d" % (hint, next(self.fresh_id)), v.d0, v.d1)
         if isinstance(v, SymSet):
             x, cs = self.fresh("set", hint)
             return x, cs + [x.card >= 0]
@@ -625,6 +639,9 @@ class Engine:
                     self.oblige(st, False, "none_in_arithmetic", node, kind="implicit")
             a = a.val if isinstance(a, Opt) else a
             b = b.val if isinstance(b, Opt) else b
+        if isinstance(op, ast.Add) and isinstance(a, (SymList, ListLit, EmptyList)) \
+                and isinstance(b, (SymList, ListLit, EmptyList)):
+            return self.list_concat(a, b, st, node)
         if isinstance(a, bool):
             a = int(a)
         if isinstance(b, bool):
@@ -684,6 +701,29 @@ class Engine:
                 return r
             raise Unsupported("power with symbolic exponent")
         raise Unsupported("operator %s" % type(op).__name__)
+
+    def list_concat(self, a, b, st, node):
+        if isinstance(a, ListLit):
+            a = self.to_symlist(a, st, node)
+        if isinstance(b, ListLit):
+            b = self.to_symlist(b, st, node)
+        if isinstance(a, EmptyList):
+            return b
+        if isinstance(b, EmptyList):
+            return a
+        if a.tup or b.tup or len(a.arrs) != 1 or len(b.arrs) != 1:
+            raise Unsupported("concatenation of lists of tuples")
+        real = "real" in (a.etypes[0], b.etypes[0])
+        i = z3.Int("c!%d" % next(self.fresh_id))
+        ea, eb = z3.Select(a.arrs[0], i), z3.Select(b.arrs[0], i - Z(a.length))
+        if real:
+            ea, eb = ZR(ea), ZR(eb)
+        elif a.etypes[0] != b.etypes[0]:
+            raise Unsupported("concatenation of lists of different element types")
+        arr = z3.Lambda([i], z3.If(i < Z(a.length), ea, eb))
+        return SymList([arr], self.arith(ast.Add(), a.length, b.length, st, node),
+                       ["real" if real else a.etypes[0]], False,
+                       parts=tuple(a.parts or (a,)) + tuple(b.parts or (b,)))
 
     def cmp(self, op, a, b):
         """Comparison of two values -> bool / BoolRef (no definedness checks)."""
@@ -1097,7 +1137,44 @@ class Engine:
     def ev_ListComp(self, n, st):
         return self.comprehension(n, st)
 
+    def grid_literal(self, n, st):
+        """[[[float("inf")] * cols for _ in range(rows)] for i in range(K)] with concrete K: a
+        tuple of K tables, every entry inf."""
+        if len(n.generators) != 1 or n.generators[0].ifs or not isinstance(n.elt, ast.ListComp):
+            return None
+        inner = n.elt
+        if len(inner.generators) != 1 or inner.generators[0].ifs:
+            return None
+        cell = inner.elt
+        if not (isinstance(cell, ast.BinOp) and isinstance(cell.op, ast.Mult) and isinstance(cell.left, ast.List)
+                and len(cell.left.elts) == 1 and isinstance(n.generators[0].target, ast.Name)):
+            return None
+        it = self.ev(n.generators[0].iter, st)
+        if not (isinstance(it, RangeV) and isinstance(it.lo, int) and isinstance(it.hi, int) and it.step == 1):
+            return None
+        out = []
+        for i in range(it.lo, it.hi):
+            frame = Frame({n.generators[0].target.id: i}, len(st.frames) - 1, st.frames[-1].func)
+            st.frames.append(frame)
+            try:
+                init = self.ev(cell.left.elts[0], st)
+                cols = self.ev(cell.right, st)
+                rng = self.ev(inner.generators[0].iter, st)
+            finally:
+                st.frames.pop()
+            if not isinstance(init, Inf) or not isinstance(rng, RangeV) or rng.step != 1 or rng.lo != 0:
+                return None
+            self.oblige(st, And(self.cmp(ast.GtE(), cols, 0), self.cmp(ast.GtE(), rng.hi, 0)),
+                        "table_shape_nonnegative", n)
+            rowb = z3.K(z3.IntSort(), z3.BoolVal(True))
+            rowr = z3.K(z3.IntSort(), z3.RealVal(0))
+            out.append(Grid2(z3.K(z3.IntSort(), rowb), z3.K(z3.IntSort(), rowr), rng.hi, cols))
+        return tuple(out)
+
     def comprehension(self, n, st):
+        g = self.grid_literal(n, st) if isinstance(n, ast.ListComp) else None
+        if g is not None:
+            return g
         if len(n.generators) != 1 or n.generators[0].ifs:
             raise Unsupported("comprehension shape")
         gen = n.generators[0]
@@ -1244,6 +1321,21 @@ class Engine:
         if isinstance(base, EmptyList):
             self.oblige(st, False, "index_in_range", node)
             return 0
+        if isinstance(base, Grid2):
+            if not st.spec_mode:
+                self.oblige(st, And(self.cmp(ast.GtE(), idx, 0), self.cmp(ast.Lt(), idx, base.d0)),
+                            "index_in_range", node)
+            return GridRow(base, idx)
+        if isinstance(base, GridRow):
+            g = base.grid
+            if not st.spec_mode:
+                self.oblige(st, And(self.cmp(ast.GtE(), idx, 0), self.cmp(ast.Lt(), idx, g.d1)),
+                            "index_in_range", node)
+                # arithmetic on float('inf') is outside the encoding: every entry that is read
+                # must have been filled
+                self.oblige(st, Not(simp(z3.Select(z3.Select(g.inf, Z(base.row)), Z(idx)))),
+                            "table_entry_is_finite", node)
+            return simp(z3.Select(z3.Select(g.val, Z(base.row)), Z(idx)))
         if isinstance(base, IndexV):
             if not isinstance(idx, int) or idx not in (0, 1):
                 raise Unsupported("operation index subscript")
@@ -1539,8 +1631,28 @@ class Engine:
             i = z3.Int("i!%d" % next(self.fresh_id))
             k = z3.Int("argmin!%d" % next(self.fresh_id))      # explicit witness (ghost)
             ln = Z(lst.length)
-            st.assume(z3.ForAll([i], z3.Implies(z3.And(0 <= i, i < ln), Z(v) <= z3.Select(lst.arrs[0], i))))
-            st.assume(z3.And(0 <= k, k < ln, Z(v) == z3.Select(lst.arrs[0], k)))
+            if lst.parts:
+                # a + b + ...: the same two facts, stated operand by operand with operand-local indices
+                # (keeps the index arithmetic of the concatenation out of the quantifier bodies)
+                off = z3.IntVal(0)
+                wit = []
+                real = lst.etypes[0] == "real"
+                for p in lst.parts:
+                    pl = Z(p.length)
+                    if isinstance(p.length, int) and p.length <= 8:
+                        for c in range(p.length):       # a literal operand: one fact per element
+                            e = simp(z3.Select(p.arrs[0], c))
+                            st.assume(Z(v) <= (ZR(e) if real else e))
+                    else:
+                        e = z3.Select(p.arrs[0], i)
+                        st.assume(z3.ForAll([i], z3.Implies(z3.And(0 <= i, i < pl), Z(v) <= (ZR(e) if real else e))))
+                    ek = z3.Select(p.arrs[0], k - off)
+                    wit.append(z3.And(off <= k, k < off + pl, Z(v) == (ZR(ek) if real else ek)))
+                    off = simp(off + pl)
+                st.assume(z3.And(0 <= k, k < ln, z3.Or(*wit)))
+            else:
+                st.assume(z3.ForAll([i], z3.Implies(z3.And(0 <= i, i < ln), Z(v) <= z3.Select(lst.arrs[0], i))))
+                st.assume(z3.And(0 <= k, k < ln, Z(v) == z3.Select(lst.arrs[0], k)))
             self.last_min_witness = k
             return v
         r = args[0]
@@ -1597,6 +1709,19 @@ class Engine:
         if isinstance(v, EmptyList):
             return ()
         raise Unsupported("tuple()")
+
+    def builtin_entry_is_inf(self, args, kw, st, n):
+        """spec: entry_is_inf(table, l, m) - the entry still holds float('inf')"""
+        g, l, m = args
+        if not isinstance(g, Grid2):
+            raise Unsupported("entry_is_inf of a non-table")
+        return simp(z3.Select(z3.Select(g.inf, Z(l)), Z(m)))
+
+    def builtin_rows(self, args, kw, st, n):
+        return args[0].d0
+
+    def builtin_cols(self, args, kw, st, n):
+        return args[0].d1
 
     def builtin_is_pair(self, args, kw, st, n):
         """spec: the operation index is a two-element list"""
